@@ -12,6 +12,7 @@ import (
 	"strings"
 	"testing"
 
+	"github.com/google/mtail/internal/metrics/datum"
 	"github.com/google/mtail/verif/ev"
 	"github.com/google/mtail/verif/gen"
 	"github.com/google/mtail/verif/mt"
@@ -96,6 +97,107 @@ var documented = []struct{ name, src string }{
 	{"as-limit-hidden", "counter lines_total as \"line-count\"\nhidden counter login_failures\ncounter bytes_total by operation limit 500\n/$/ {\n  lines_total++\n  login_failures++\n  bytes_total[\"x\"]++\n}\n"},
 }
 
+// operatorGrid: every Int operator on RUNTIME operands (captures, so the
+// optimiser folds nothing) over all pairs of small values incl. negatives and
+// zero, against the arithmetic the language reference names (Go's, as the
+// reference delegates to it): value or checked runtime error. Pairs whose
+// result the reference leaves open (overflow, 0 ** negative) are skipped.
+func operatorGrid(r *ev.Run) {
+	vals := []int64{-9, -3, -2, -1, 0, 1, 2, 3, 5, 10, 63}
+	type exp struct {
+		v    int64
+		err  bool
+		skip bool
+	}
+	expect := func(op string, a, b int64) exp {
+		switch op {
+		case "+":
+			return exp{v: a + b}
+		case "-":
+			return exp{v: a - b}
+		case "*":
+			return exp{v: a * b}
+		case "/":
+			if b == 0 {
+				return exp{err: true}
+			}
+			return exp{v: a / b}
+		case "%":
+			if b == 0 {
+				return exp{err: true}
+			}
+			return exp{v: a % b}
+		case "**":
+			switch {
+			case b >= 0:
+				v := int64(1)
+				for i := int64(0); i < b; i++ {
+					v *= a
+					if v > 1<<53 || v < -(1<<53) {
+						return exp{skip: true}
+					}
+				}
+				return exp{v: v}
+			case a == 0:
+				return exp{skip: true}
+			case a == 1:
+				return exp{v: 1}
+			case a == -1:
+				if b%2 == 0 {
+					return exp{v: 1}
+				}
+				return exp{v: -1}
+			}
+			return exp{v: 0} // |a| > 1: a fraction, truncated
+		case "<<":
+			if b < 0 {
+				return exp{err: true}
+			}
+			return exp{v: a << uint(b)}
+		case ">>":
+			if b < 0 {
+				return exp{err: true}
+			}
+			return exp{v: a >> uint(b)}
+		case "&":
+			return exp{v: a & b}
+		case "|":
+			return exp{v: a | b}
+		case "^":
+			return exp{v: a ^ b}
+		}
+		return exp{skip: true}
+	}
+	for _, op := range []string{"+", "-", "*", "/", "%", "**", "<<", ">>", "&", "|", "^"} {
+		src := "gauge g\n/^i (-?\\d+) (-?\\d+)$/ {\n  g = $1 " + op + " $2\n}\n"
+		p, err := mt.Load(mt.UniqueName("c01grid"), src, mt.VMOpts{})
+		if err != nil {
+			r.Violation("documented-form-rejected-operator-grid", map[string]any{"program": src, "error": err.Error()})
+			continue
+		}
+		for _, a := range vals {
+			for _, b := range vals {
+				e := expect(op, a, b)
+				if e.skip {
+					r.Count("operator_grid_pairs_unspecified", 1)
+					continue
+				}
+				line := fmt.Sprintf("i %d %d", a, b)
+				errd := p.Line("f", line)
+				d, _ := p.Obj.Metrics[0].GetDatum()
+				got := datum.GetInt(d)
+				r.Eval(1)
+				r.Count("operator_grid_pairs", 1)
+				if errd != e.err || (!e.err && got != e.v) {
+					r.Violation("operator-grid", map[string]any{"program": src, "line": line, "what": fmt.Sprintf("%d %s %d on run-time operands: got %d (runtime error: %v), the reference arithmetic gives %d (error: %v)", a, op, b, got, errd, e.v, e.err), "runtime_error": p.VM.RuntimeErrorString()})
+					break
+				}
+			}
+		}
+		p.Close()
+	}
+}
+
 func TestC01(t *testing.T) {
 	r := ev.Start(t, "C01", "exploration")
 	defer r.Finish()
@@ -104,6 +206,7 @@ func TestC01(t *testing.T) {
 	r.Assume("label sets the reference only read (never wrote) are optional in the comparison and must be zero-valued when present ('read creates datum' is not specified)",
 		"Go's regexp and strconv are the trusted matcher / number parser")
 
+	operatorGrid(r)
 	for _, d := range documented {
 		_, err := mt.Compile(mt.UniqueName("doc"), d.src)
 		r.Eval(1)
@@ -122,7 +225,7 @@ func TestC01(t *testing.T) {
 	// value of counter c by the reference semantics (worked out by hand)
 	pinned := []struct {
 		id, src, line string
-		want         int64
+		want          int64
 	}{
 		{"C01-a", "counter c\n/x/ {\n}\n/y/ {\n} else {\n  otherwise {\n    c++\n  }\n}\n", "x", 1},
 		{"C01-f", "counter c\ndef d {\n  /a=(\\d+)/ {\n    next\n  }\n}\n@d {\n  /zzz/ {\n    @d {\n      c++\n    }\n  }\n  c += $1\n}\n", "a=3", 3},
